@@ -17,7 +17,7 @@ ASSUME_COMMON = [
 def _value_jobs(prop_id, family, scns, tier, seed, **kw):
     import scenarios as S
     jobs = []
-    bfs_budget, sim_budget = (800, 500) if tier == "quick" else (30000, 20000)
+    bfs_budget, sim_budget = (800, 500) if tier == "quick" else (10000, 6000)
     bfs_budget = kw.pop("bfs_budget", bfs_budget)
     sim_extra = kw.pop("sim_extra", 3)
     sim_budget = kw.pop("sim_budget", sim_budget)
@@ -160,7 +160,7 @@ def c11(tier, seed):
     scns = scns + [dict(s, name=s["name"] + ".ins") for s in _insertion_scns(tier, seed)]
     return dict(
         jobs=_value_jobs("C11", "c11", scns, tier, seed,
-                         power=((1, 3, 7), 25, 5, 5 if tier == "quick" else 200)),
+                         power=((1, 3, 7), 25, 5, 5 if tier == "quick" else 80)),
         rule="as C04: plain scenarios plus seeded insertion configurations (subtotals, "
              "differences, intersections) x TLC-enumerated bags; variances compared as "
              "rationals, std-dev / std-err / MoE by square and sign",
@@ -179,7 +179,7 @@ def c12(tier, seed):
     return dict(
         jobs=_value_jobs("C12", "c12", scns, tier, seed,
                          invariants=("EmitInv", "ThmZ2IsChiSq"), sim_extra=3,
-                         power=((1, 3, 7), 25, 5, 5 if tier == "quick" else 200)),
+                         power=((1, 3, 7), 25, 5, 5 if tier == "quick" else 80)),
         rule="as C04 (plain + insertion configurations) x TLC-enumerated bags, so that "
              "degenerate tables (single row/column, proportional rows, empty margins) occur; "
              "z by sign and square, p against the two-sided normal tail of the spec's Z2; "
@@ -197,7 +197,7 @@ def c14(tier, seed):
     scns = []
     fixed = [([1, 2, 3], [None, None, None]), ([None, 2, 1], [3, 1, 2]), ([2, 2, None], [0, -1, 1]),
              ([None, None, None], [1, 3, 2])]
-    nrand = 4 if tier == "quick" else 24
+    nrand = 4 if tier == "quick" else 10
     assigns = fixed + [([rng.choice(pool) for _ in range(3)], [rng.choice(pool) for _ in range(3)])
                        for _ in range(nrand)]
     for k, (rv, cv) in enumerate(assigns):
@@ -218,7 +218,7 @@ def c14(tier, seed):
                            6 if tier == "quick" else 30, seed)
     return dict(
         jobs=_value_jobs("C14", "c14", scns + ins, tier, seed,
-                         power=((1, 4, 9), 40, 6, 5 if tier == "quick" else 200)),
+                         power=((1, 4, 9), 40, 6, 5 if tier == "quick" else 80)),
         rule="numeric-value assignments from {-1,0,1,2,none} (fixed + seeded) x every bag of "
              "<= N respondents (so zero-count categories fall anywhere in the value order) and "
              "random larger bags; subtotal vectors via insertion configurations",
@@ -528,7 +528,7 @@ def c05(tier, seed):
     jobs = _value_jobs("C05", "c07", scns, tier, seed,
                        bfs_budget=260 if tier == "quick" else 12000,
                        sim_budget=450 if tier == "quick" else 8000,
-                       power=((1, 4, 9), 45, 7, 10 if tier == "quick" else 300))
+                       power=((1, 4, 9), 45, 7, 10 if tier == "quick" else 120))
     if tier == "quick":
         # quick tier: the exhaustive part covers the empty survey only (one state per
         # configuration); the bags come from simulation
@@ -693,9 +693,9 @@ def c13(tier, seed):
     return dict(
         jobs=_value_jobs("C13", "c13", scns, tier, seed, single_pass=True,
                          invariants=("EmitInv", "ThmPwAntisym"),
-                         bfs_budget=700 if tier == "quick" else 20000,
-                         sim_budget=300 if tier == "quick" else 10000, sim_extra=2,
-                         power=((1, 3, 8), 30, 6, 12 if tier == "quick" else 400)),
+                         bfs_budget=700 if tier == "quick" else 8000,
+                         sim_budget=300 if tier == "quick" else 5000, sim_extra=2,
+                         power=((1, 3, 8), 30, 6, 12 if tier == "quick" else 150)),
         rule="CAT and MR columns, unweighted / weighted without / with squared weights, mean "
              "responses (Welch); subtotal and difference columns and rows as selected or "
              "compared column; alpha pairs and only-larger flag; column order / hide transforms; x "
@@ -736,8 +736,8 @@ def c06(tier, seed):
         scenario("cat_x_cat_x_cat.u", [cat("T", 2), cat("A", 2), cat("B", 2)], weighted=False),
     ]
     jobs = _value_jobs("C06", "c06", scns, tier, seed, check_table_name=True,
-                       bfs_budget=220 if tier == "quick" else 30000,
-                       sim_budget=160 if tier == "quick" else 20000)
+                       bfs_budget=220 if tier == "quick" else 8000,
+                       sim_budget=160 if tier == "quick" else 5000)
 
     def custom(tier_, seed_, t0):
         import multicube
